@@ -242,6 +242,9 @@ func init() {
 					jobs = append(jobs, job{s, d})
 				}
 			}
+			for _, p := range dyn.NamedPairs() { // and 104 instantiations with a named element type on one side
+				jobs = append(jobs, job{p[0], p[1]})
+			}
 			c.ParallelFor(len(jobs), func(ji int) {
 				jb := jobs[ji]
 				var n, nt int64
@@ -262,8 +265,9 @@ func init() {
 						}
 					}
 				}
+				namedJob := dyn.Types[jb.s].Named || dyn.Types[jb.d].Named
 				// large shapes, sparsely (size-threshold fast paths)
-				for C := 1; C <= 3; C++ {
+				for C := 1; C <= 3 && !namedJob; C++ {
 					for _, P := range []int{9, 33, 130, 1025} {
 						ws := []side{{P, 0, P, 0}, {P, 1, P - 2, 0}, {P, P / 2, P / 3, 0}}
 						if C > 1 {
